@@ -24,7 +24,7 @@ def t_validate(world):
         ob.prove(eng, r, [okc, g('risk_tier') == RT['Isolated']], z3.And(awi == 0, awm == 0), 'isolated banks carry zero asset weights')
         ob.prove(eng, r, [okc], g('oracle_max_age') >= 10, 'oracle max age >= ORACLE_MIN_AGE (10 s)')
         cs = calls(r, r'validate$')
-        if not cs: ob.fail('Ok path without a call to the interest-rate config validator')
+        if not cs: ob.structural('Ok path without a call to the interest-rate config validator', 'no-curve-validator')
         else:
             rv = None
             # the curve validator's result must be Ok on every accepted path
@@ -115,7 +115,7 @@ def mk_entries(nonempty):
             for e in levs:
                 # each Ok leverage must be <= one of the cap values on accepting paths
                 ob.prove(eng, r, [okc, e[3] == 0], z3.Or([e[2] <= z3.Int(n) for n in caps] or [z3.BoolVal(False)]), 'leverage <= a configured cap')
-            if not calls(r, r'check_dupes'): ob.fail('Ok path without check_dupes')
+            if not calls(r, r'check_dupes'): ob.structural('Ok path without check_dupes', 'no-dupes-check')
         ob.need_witness()
         return [ob]
     return task
